@@ -189,3 +189,27 @@ pub unsafe extern "C" fn zfree(opaque: *mut c_void, ptr: *mut c_void) {
         }
     }
 }
+
+thread_local! {
+    /// when non-zero: opaque of the tracker that `CDef::init` / `CApi::init` install into new streams
+    pub static CURRENT: std::cell::Cell<usize> = std::cell::Cell::new(0);
+}
+
+pub fn install_current(strm: &mut libz_rs_sys::z_stream) {
+    let cur = CURRENT.with(|c| c.get());
+    if cur != 0 {
+        strm.zalloc = Some(zalloc);
+        strm.zfree = Some(zfree);
+        strm.opaque = cur as *mut c_void;
+    }
+}
+
+/// run `f` with `t` installed as the allocator of every stream the interpreters create
+pub fn with_tracker<R>(t: &Tracker, f: impl FnOnce() -> R) -> R {
+    register(t);
+    let old = CURRENT.with(|c| c.replace(t.opaque));
+    let r = f();
+    CURRENT.with(|c| c.set(old));
+    unregister(t);
+    r
+}
